@@ -50,10 +50,14 @@ def gen_case(rng):
     th = np.where((np.abs(th) > 0) & (np.abs(th) < 1e-2), 0.0, th)     # keep th +- h out of the exp cut-off band too
     th = np.clip(th, lo, hi)
     prefix = []
-    if rng.random() < 0.4:
-        prefix.append({"op": "move", "base": armlib.random_base(rng, 0.0)})
-    if rng.random() < 0.4:
-        prefix.append({"op": "setArbitraryHome", "rel": np.concatenate([rng.uniform(-0.3, 0.3, 3), gen.rotvec(rng, ["zero", "generic2"])]).tolist()})
+    for _ in range(int(rng.choice([0, 0, 1, 1, 2, 3]))):
+        k = gen.pick(rng, ["move", "setArbitraryHome", "setArbitraryHome", "restoreOriginalEE"])
+        if k == "move":
+            prefix.append({"op": "move", "base": armlib.random_base(rng, 0.0)})
+        elif k == "setArbitraryHome":
+            prefix.append({"op": "setArbitraryHome", "rel": np.concatenate([rng.uniform(-0.3, 0.3, 3), gen.rotvec(rng, ["zero", "generic2"])]).tolist()})
+        else:
+            prefix.append({"op": "restoreOriginalEE"})
     link_homes = [np.concatenate([rng.uniform(-1, 1, 3), gen.rotvec(rng, ["zero", "generic2"])]).tolist() for _ in range(n)]
     masses = rng.uniform(0.1, 50, n + 1).tolist()
     cgs = [np.concatenate([rng.uniform(-0.3, 0.3, 3), np.zeros(3)]).tolist() for _ in range(n + 1)]
@@ -92,11 +96,13 @@ def run_case(case, ctx, bm):
         if op["op"] == "move":
             arm.move(tm(np.array(op["base"], dtype=float)))
             moved = True
+        elif op["op"] == "restoreOriginalEE":
+            arm.restoreOriginalEE()
         else:
             arm.setArbitraryHome(tm(arm.getEEPos().gTM() @ se3.taa_to_T(op["rel"])))
     th = np.array(case["theta"], dtype=float)
     h = case["h"]
-    tag = ("moved" if moved else "static") + ("+tool" if any(o["op"] == "setArbitraryHome" for o in case["prefix"]) else "")
+    tag = "prefix:" + (">".join({"move": "move", "setArbitraryHome": "tool", "restoreOriginalEE": "restore"}[o["op"]] for o in case["prefix"]) or "none")
 
     def FK(x):
         return arm.FK(x.copy()).gTM()
